@@ -53,6 +53,13 @@ def generate(tier, rng):
                 mn = rng.choice([0, 0, -DEN, 5, g["xmin"]])
             if 0.08 < u < 0.25:
                 mx = rng.choice([g["xmax"], g["xmax"] + DEN, g["xmax"] - 1])
+            times = sorted(set(x for t in g["tiers"] for e in t["entries"] for x in e[:-1]))
+            if times and rng.random() < 0.12:
+                # an override that cuts through the data (a point or an interval of any tier, blank filling on or off): the save must refuse
+                if rng.random() < 0.5:
+                    mn, mx = rng.choice(times) + rng.choice([1, 1, 7]), None
+                else:
+                    mn, mx = None, rng.choice(times) - rng.choice([1, 1, 7])
             cases.append({"op": "save", "fam": "B", "g": g, "vals": None, "blanks": rng.random() < 0.7, "mn": mn, "mx": mx,
                           "thr": rng.choice([None, 1e-8, 1e-8]), "scale": ["dyadic", K]})
     return cases
